@@ -297,10 +297,10 @@ def no_idle_forward(spec: Spec, vals: dict, obs: dict, info: dict) -> list[str]:
                 if not info["onshift"][m][slot]:
                     elig = False
                     break
-                tot = 0
-                for _t, s in obs["res"][m]["ledger"].get(slot, []):
-                    tot = tot + s
-                free = g - tot
+                # free = what the scheduler can still hand out in this slot. The used-seconds counter also covers an idle
+                # prefix nobody owns (dependency offset, a team member waiting for its partner): slots are filled from their
+                # beginning only, such a slot is not "unbooked" in the sense of the property
+                free = g - obs["res"][m]["used"].get(slot, 0)
                 if slot == first_possible:
                     # only the part of the bound's own slot after the bound is eligible
                     usable = (slot + 1) * g - bound
@@ -535,3 +535,56 @@ def matches_reference(spec: Spec, vals: dict, obs: dict, info: dict) -> list[str
 
 
 ORACLES["C07"] = matches_reference
+
+
+# ---- C08 backward -----------------------------------------------------------------------------
+
+def alap_deadline(spec: Spec, vals: dict, obs: dict, info: dict, tid: str) -> Any:
+    """latest instant an ALAP task may end: own end, an enclosing container's end, earliest successor start minus gap, project end"""
+    t = spec.task(tid)
+    dl: Any = (info["size"] - 1) * info["g"]
+    parts = tid.split(".")
+    for k in range(len(parts), 0, -1):
+        anc = spec.task(".".join(parts[:k]))
+        if anc.end is not None:
+            e = spec.tval(anc.end, vals)
+            if e < dl:
+                dl = e
+    for (succ, pred, gsec, onstart) in all_edges(spec):
+        if pred != tid and not tid.startswith(pred + "."):
+            continue
+        if onstart:
+            continue
+        s = obs["tasks"][succ]
+        if spec.is_leaf(spec.task(succ)) and s["start"] is not None and s["start"] - gsec < dl:
+            dl = s["start"] - gsec
+    return dl
+
+
+def no_idle_backward(spec: Spec, vals: dict, obs: dict, info: dict) -> list[str]:
+    g = info["g"]
+    fails: list[str] = []
+    for t in spec.tasks:
+        tid = spec.full_id(t)
+        o = obs["tasks"][tid]
+        if not spec.is_leaf(t) or t.effort is None or not o["scheduled"] or o["forward"] is not False or not t.alloc or t.alt:
+            continue
+        if t.limits or _task_anc_limits(spec, t) or any(res_by_leaf_id(spec, r).limits or _anc_limits(spec, r) for r in t.alloc):
+            continue
+        dl = alap_deadline(spec, vals, obs, info, tid)
+        if o["end"] - dl > TOL:
+            fails.append(f"C08 ALAP {tid}: ends at {o['end']}, after its deadline {dl}")
+            continue
+        members = [_leaf_path(spec, r) for r in t.alloc]
+        first_after = int(-(-o["end"] // g))  # first slot that begins at or after the end
+        last = int(dl // g)  # slots ending at or before the deadline: < last
+        for slot in range(first_after, last):
+            if slot < 0 or slot >= info["size"]:
+                continue
+            if all(info["onshift"][m][slot] and not obs["res"][m]["ledger"].get(slot) for m in members):
+                fails.append(f"C08 ALAP {tid}: slot {slot} is working and unbooked on {members} between its end {o['end']} and its deadline {dl}")
+                break
+    return fails
+
+
+ORACLES["C08b"] = no_idle_backward
